@@ -147,6 +147,7 @@ func acDocsQueries(r *Rand, perKeyword bool) ([]eDoc, []eQuery) {
 	for k := 0; k < 3; k++ {
 		a, b := ks[r.Intn(len(ks))], ks[r.Intn(len(ks))]
 		qs = append(qs, eQuery{A: []eAssign{{F: 1, V: tvStr(acWord(r, r.Intn(2)) + a + acWord(r, r.Intn(3)) + b)}}},
+			eQuery{A: []eAssign{{F: 1, V: tvStr(b + acWord(r, r.Intn(2)) + a)}}},
 			eQuery{A: []eAssign{{F: 1, V: tvSlice("[]string", tvStr(b), tvStr(a))}, {F: 0, V: tvInt("int", r.I64(1, 5))}}})
 	}
 	return docs, qs
@@ -163,6 +164,9 @@ func acSeparatorCorner(add func(in interface{})) {
 	}
 	tag := eExpr{F: 0, Inc: true, V: tvSlice("[]int", tvInt("int", 1))}
 	docs := []eDoc{
+		// include and exclude on the same pattern field of one conjunction: exclusion wins wherever the keywords stand
+		{ID: 11, Cons: []eConj{{kw(1, true, "ab"), kw(1, false, "cd")}}}, {ID: 12, Cons: []eConj{{kw(1, true, "b"), kw(1, false, "ab")}}},
+		{ID: 13, Cons: []eConj{{kw(1, true, "xyz"), kw(1, false, "z")}}},
 		{ID: 1, Cons: []eConj{{kw(1, true, " a"), tag}}},
 		{ID: 2, Cons: []eConj{{kw(1, false, " a"), tag}}},
 		{ID: 3, Cons: []eConj{{kw(1, true, "a")}}},
@@ -172,7 +176,7 @@ func acSeparatorCorner(add func(in interface{})) {
 		{ID: 7, Cons: []eConj{{kw(1, false, "  ")}, {kw(1, true, "b ", " b")}}},
 	}
 	var qs []eQuery
-	for _, parts := range [][]string{{"", "a"}, {"", "", "a"}, {"a", ""}, {"a", "", "b"}, {"", ""}, {""}, {" a"}, {"a"}, {"a", "b"}, {"b", "", "", "a"}, {"", "b", ""}, {"a ", " b"}, {" "}, {"", " "}} {
+	for _, parts := range [][]string{{"cd ab"}, {"ab cd"}, {"cdab"}, {"ab b"}, {"xyz"}, {"z xyz"}, {"xy", "z"}, {"", "a"}, {"", "", "a"}, {"a", ""}, {"a", "", "b"}, {"", ""}, {""}, {" a"}, {"a"}, {"a", "b"}, {"b", "", "", "a"}, {"", "b", ""}, {"a ", " b"}, {" "}, {"", " "}} {
 		l := make([]TV, len(parts))
 		for i, s := range parts {
 			l[i] = tvStr(s)
